@@ -1,7 +1,7 @@
 (** C18 — declarative configuration is honoured, ordered, and reproducible from its dump.
     Statements only (model Config/Config.v, proofs Config/ConfigProofs.v). *)
 From Coq Require Import List Arith Bool.
-From Memento Require Import Config.Config Config.ConfigProofs Gen.SourceFacts Gen.FactsOK.
+From Memento Require Import Config.Config Config.ConfigProofs Gen.SourceFacts Gen.FactsC18.
 Import ListNotations.
 
 (** every option given in the configuration has the effect of the same constructor argument *)
